@@ -17,7 +17,13 @@ def gen_dep_fn_scenario(rng: random.Random, steer=None):
     # call shapes: an optional trailing positional and / or an optional keyword-only parameter, declared alike by
     # every method, so that calls of different shapes reach the same value-dependent ranks
     opt_pos = steer != "literals" and rng.random() < 0.35
-    opt_kw = steer != "literals" and rng.random() < 0.25
+    opt_kw = steer != "literals" and rng.random() < 0.3
+    kw_focus = rng.choice([C_INT, C_STR]) if opt_kw and rng.random() < 0.6 else None
+    # now and then the ONLY value-dependent parameter is the keyword-only one, behind an optional positional: whether
+    # a rank needs a value dispatcher must not be read off a prefix of the declared parameters
+    kwdep = steer != "literals" and rng.random() < 0.15
+    if kwdep:
+        opt_pos, opt_kw, kw_focus = rng.random() < 0.8, True, rng.choice([C_INT, C_STR])
     for i in range(nmeth):
         params = []
         for j in range(npos):
@@ -30,7 +36,7 @@ def gen_dep_fn_scenario(rng: random.Random, steer=None):
                     t = ["lit", vs, ["cls", C_INT]]
                 else:
                     t = ["cls", rng.choice([C_INT, C_OBJECT])]
-            elif r < 0.6:
+            elif r < 0.6 and not kwdep:
                 t = gen_applicable_type(rng, ew, focus[j]) if rng.random() < 0.8 else gen_dep_type(rng, ew, focus[j])
             else:
                 supers = [c for c in range(w.n) if w.tables_cache["sub"][focus[j]][c]]
@@ -39,7 +45,12 @@ def gen_dep_fn_scenario(rng: random.Random, steer=None):
         if opt_pos:
             params.append({"name": npos, "kind": "pk", "req": False, "ty": ["cls", C_OBJECT]})
         if opt_kw:
-            params.append({"name": 90, "kind": "ko", "req": False, "ty": ["cls", C_OBJECT]})
+            # the keyword-only parameter is itself value-dependent now and then (it sits after an optional
+            # positional, or alone: the supplied arguments are then not a prefix of the declared parameters)
+            tk = ["cls", C_OBJECT]
+            if kw_focus is not None and rng.random() < (0.85 if kwdep else 0.6):
+                tk = gen_applicable_type(rng, ew, kw_focus, allow_combo=False)
+            params.append({"name": 90, "kind": "ko", "req": False, "ty": tk})
         body = ["ret"]
         if rng.random() < 0.3:
             body = ["callNext", [["p", j] for j in range(npos)]]
@@ -66,8 +77,9 @@ def gen_dep_fn_scenario(rng: random.Random, steer=None):
         kw = []
         if opt_pos and rng.random() < 0.5:
             extra.append(rng.randrange(len(args)))
-        if opt_kw and rng.random() < 0.5:
-            kw = [[90, rng.randrange(len(args))]]
+        if opt_kw and rng.random() < (0.7 if kw_focus is not None else 0.5):
+            kc = by_cls.get(kw_focus, []) if kw_focus is not None and rng.random() < 0.85 else []
+            kw = [[90, rng.choice(kc or list(range(len(args))))]]
         ops.append(["call", extra, kw])
         if rng.random() < 0.2:
             ops.append(["call", list(extra), list(kw)])
